@@ -808,6 +808,10 @@ def observe(sel):
         ("any(f('A') == 'a' for f in [lower])", r1, V(True), E("InvalidOperation")),
     ]) and all(_run(sel, "interpreted", e, r1)[:2] == E("InvalidOperation")
                for e in ("r.s.upper()", "'abc'.upper()", "any(g() for g in [r.s.upper])", "len(r.a)", "foo(1)"))
+    f["contains_skips_missing"] = _decide("field_contains_skips_missing_string", sel, [
+        ("field_contains(r, ['n'], [r.zz])", r1, V(False), E("TypeError")),
+        ("field_contains(r, ['s'], [r.zz, 'b'])", r1, V(True), E("TypeError")),
+    ], engines=("interpreted", "compiled"))
     f["final_typeerror"] = all(_run(sel, "interpreted", e, r1)[:2] == E("TypeError") for e in (
         "1 if 2 else 3", "r.a[0]", "{1: 2}", "{1, 2}", "[x for x in r.a]", "f'{r.n}'", "(lambda: 1)", "(y := 1)"))
     # TypeMatcher / TypeMatcherInstance, observed on the real objects
@@ -917,6 +921,8 @@ def gen_selsem():
     out += "   attributes give NONE_OBJECT, _values follows the attribute path and skips what is missing, _subrecords walks record and\n"
     out += "   record[] fields, the In special case of the interpreter looks at the matcher's own values only *)\n"
     out += "Definition typematcher_shapes_ok : bool := %s.\n" % cbool(f["tm_shapes"])
+    out += "(* field_contains(r, ['n'], [r.zz]) is False: a wanted string that is a missing field is skipped *)\n"
+    out += "Definition field_contains_skips_missing_string : bool := %s.\n" % cbool(f["contains_skips_missing"])
     out += "(* NONE_OBJECT.x is NONE_OBJECT (a dunder name raises AttributeError) *)\n"
     out += "Definition sentinel_attribute_is_sentinel : bool := %s.\n" % cbool(f["sentinel_attr"])
     out += "(* evaluation order and evaluated sub-expressions on logging probes: as transcribed in model/SelSem.v *)\n"
